@@ -484,7 +484,14 @@ fn probe_reject(args: &Args) {
         "pipe_register", "pipe_register_raw", "signals_new", "signals_new_after_valid", "add_signal",
         "registry_register_signal_unchecked", "registry_register_unchecked",
     ];
-    let nums: Vec<c_int> = if args.flag("all") {
+    let nums: Vec<c_int> = if args.flag("wide") {
+        let mut v: Vec<c_int> = (-5..=600).collect();
+        for k in 10..31 {
+            v.extend([(1 << k) - 1, 1 << k, (1 << k) + 1, -(1 << k)]);
+        }
+        v.extend([i32::MIN, i32::MIN + 1, i32::MAX - 1, i32::MAX]);
+        v
+    } else if args.flag("all") {
         // 138 = 128 + SIGUSR1, 266 = 256 + SIGUSR1: numbers that alias a signal already in use when
         // reduced modulo a table size
         (-2..=140).chain([266, 1 << 30, i32::MIN, i32::MAX].into_iter()).collect()
